@@ -239,8 +239,54 @@ def run(ctx: Any, prog: Program) -> None:
             if kfields:
                 ctx.check('C11.L19', not missing, bsp, look[0], f'BSP.{wname} re-uses the record already written for `{U(kexpr)[:50]}`, but a record also carries {missing}: two `{obj}` objects that agree in the key and differ '
                           'there collapse into the first one written, and everything that refers to the second now points at the wrong data', func=f'BSP.{wname}', text=f'{wname}: {table} key')
-    if n19 < 1:
-        raise AnalysisError('L19: no de-duplicating writer found (BSP._lmp_write_texinfo confirmed by hand)')
+    # the helper form: `add = find_or_insert(<list>, <key function>)` - equal keys share one slot of the list.  The default key (object
+    # identity) and an identity function keep distinct entries distinct; a folding key (str.casefold ...) merges names the reader hands out
+    # verbatim, unless the paired reader identifies the entries under the same fold (the texture table: `_texdata[mat.casefold()]`).
+    FOLDS = ('casefold', 'lower', 'upper', 'strip', 'title', 'swapcase')
+
+    def returns_param(f: ast.AST) -> bool:
+        if isinstance(f, ast.Lambda):
+            return isinstance(f.body, ast.Name) and bool(f.args.args) and f.body.id == f.args.args[0].arg
+        if isinstance(f, ast.Name):
+            if f.id == 'id':
+                return True
+            for cand in (bsp.all_funcs().get(f.id) or []):
+                body = [x for x in cand.body if not (isinstance(x, ast.Expr) and isinstance(x.value, ast.Constant))]
+                if len(body) == 1 and isinstance(body[0], ast.Return) and isinstance(body[0].value, ast.Name) and cand.args.args and body[0].value.id == cand.args.args[0].arg:
+                    return True
+        return False
+
+    def fold_of(f: ast.AST) -> Optional[str]:
+        if isinstance(f, ast.Attribute) and isinstance(f.value, ast.Name) and f.value.id == 'str' and f.attr in FOLDS:
+            return f.attr
+        if isinstance(f, ast.Lambda):
+            for c in ast.walk(f.body):
+                if isinstance(c, ast.Call) and isinstance(c.func, ast.Attribute) and c.func.attr in FOLDS:
+                    return c.func.attr
+        return None
+    n19h = 0
+    for wname, wfn in bsp.methods('BSP').items():
+        if not wname.startswith(('_lmp_write', '_write_')):
+            continue
+        for c in [x for x in ast.walk(wfn) if isinstance(x, ast.Call) and (dotted(x.func) or '').split('.')[-1] in ('find_or_insert', 'find_or_extend')]:
+            keyf = c.args[1] if len(c.args) > 1 else next((k.value for k in c.keywords if k.arg == 'key_func'), None)
+            n19h += 1
+            label = f'{wname}: slot key of {U(c.args[0]) if c.args else "?"}'
+            if keyf is None or returns_param(keyf):
+                ctx.check('C11.L19', True, bsp, c, 'distinct entries keep distinct slots', func=f'BSP.{wname}', text=label)
+                continue
+            fo = fold_of(keyf)
+            if fo is None:
+                ctx.shape('C11.L19', False, bsp, c, f'key function `{U(keyf)}` is neither the identity nor a recognised string fold', func=f'BSP.{wname}', text=label)
+                continue
+            rname = wname.replace('_lmp_write', '_lmp_read', 1)
+            rfn = bsp.methods('BSP').get(rname)
+            reader_folds = rfn is not None and any(isinstance(sub, ast.Subscript) and any(isinstance(k, ast.Call) and isinstance(k.func, ast.Attribute) and k.func.attr == fo for k in ast.walk(sub.slice))
+                                                   for sub in ast.walk(rfn))
+            ctx.check('C11.L19', reader_folds, bsp, c, f'BSP.{wname} shares one slot of `{U(c.args[0])}` between all entries with the same `{U(keyf)}`, but {rname} hands the stored names out as written: two names that differ '
+                      'only under that fold come back as the first spelling, and the table loses an entry', func=f'BSP.{wname}', text=label)
+    if n19 < 1 or n19h < 15:
+        raise AnalysisError(f'L19: de-duplicating writers found: {n19} try/except tables, {n19h} find_or_insert helpers (BSP._lmp_write_texinfo and 20+ helper calls confirmed by hand)')
     # ---- L1 / L2 -------------------------------------------------------------------------------------------
     for v in views:
         if v in NO_WIRE:
@@ -644,6 +690,8 @@ def run(ctx: Any, prog: Program) -> None:
 
 
 MUTANTS = [
+    {'id': 'prop_model_names_casefolded', 'file': 'bsp.py', 'find': "        add_model = find_or_insert(model_list, identity)\n", 'replace': "        add_model = find_or_insert(model_list, str.casefold)\n", 'expect': 'C11.L19'},
+    {'id': 'ok_prop_model_names_lambda_identity', 'file': 'bsp.py', 'find': "        add_model = find_or_insert(model_list, identity)\n", 'replace': "        add_model = find_or_insert(model_list, lambda name: name)\n", 'expect': None},
     {'id': 'texdata_deduplicated_by_material', 'file': 'bsp.py', 'find': "            try:\n                ind = texdata_ind[tdat]\n            except KeyError:\n                ind = texdata_ind[tdat] = next_ind", 'replace': "            mat_key = tdat.mat.casefold()\n            try:\n                ind = texdata_ind[mat_key]\n            except KeyError:\n                ind = texdata_ind[mat_key] = next_ind", 'expect': 'C11.L19'},
     {'id': 'ok_texdata_deduplicated_by_all_fields', 'file': 'bsp.py', 'find': "            try:\n                ind = texdata_ind[tdat]\n            except KeyError:\n                ind = texdata_ind[tdat] = next_ind", 'replace': "            full_key = (tdat.mat, tdat.reflectivity, tdat.width, tdat.height)\n            try:\n                ind = texdata_ind[full_key]\n            except KeyError:\n                ind = texdata_ind[full_key] = next_ind", 'expect': None},
     {'id': 'texdata_index_from_list_length', 'file': 'bsp.py', 'find': "                ind = texdata_ind[tdat] = next_ind\n                next_ind += 1\n", 'replace': "                ind = texdata_ind[tdat] = len(texdata_list) // 2\n", 'expect': 'C11.L18'},
